@@ -49,11 +49,23 @@ func c02Check(a, b string) (msg string, skip string, model bool) {
 		return "", "model-invalid", false
 	}
 	want, amb := MatchTerms(na, nb)
-	if amb {
-		return "", "ambiguous-table-position", false
-	}
 	r1 := Sat(a, []string{b})
 	r2 := Sat(b, []string{a})
+	if amb {
+		// an id listed at several table positions has no well-defined family (C11's finding): the rule
+		// is not applied, but the answer must still be symmetric and the same when asked again
+		r3 := Sat(a, []string{b})
+		if r1.Panic != "" || r2.Panic != "" || r3.Panic != "" {
+			return "", "panic", false
+		}
+		if r1.Ok != r2.Ok || r1.IsErr != r2.IsErr {
+			return fmt.Sprintf("asymmetric: Satisfies(%q,[%q])=%v but Satisfies(%q,[%q])=%v", a, b, r1.Ok, b, a, r2.Ok), "", false
+		}
+		if r1 != r3 {
+			return fmt.Sprintf("Satisfies(%q,[%q]) answered %v and then %v", a, b, r1.Ok, r3.Ok), "", false
+		}
+		return "", "ambiguous-table-position", false
+	}
 	if r1.Panic != "" || r2.Panic != "" {
 		return "", "panic", want
 	}
@@ -232,6 +244,24 @@ func c02Run(c *Ctx) {
 			}
 			for _, a := range tx {
 				c02Pair(c, a, "LicenseRef-a")
+			}
+			// against the first and the last version of every family (table position 0 is special to
+			// code that confuses 'not in the table' with 'at the first position')
+			for _, f := range T().Ranges {
+				if len(f) == 0 || len(f[0]) == 0 || len(f[len(f)-1]) == 0 {
+					continue
+				}
+				for _, y := range []string{f[0][0], f[len(f)-1][0]} {
+					for _, a := range []string{id, id + "+"} {
+						if !NormTerm(a).Valid {
+							continue
+						}
+						c02Pair(c, a, y)
+						if NormTerm(y + "+").Valid {
+							c02Pair(c, a, y+"+")
+						}
+					}
+				}
 			}
 		}
 		// references
